@@ -158,7 +158,7 @@ def denotes(piece, kind, key, rank):
     """does a decoded string piece denote (key, rank)?"""
     if isinstance(piece, K):
         return (piece.tab == kind) & (piece.rank == rank) if rank else False
-    return isinstance(piece, str) and piece == key   # re-sent within this statement (fresh, or evicted and inserted again)
+    return isinstance(piece, str) and str(piece) == str(key)   # re-sent within this statement (fresh, or evicted and inserted again)
 
 
 def term_ok(dec_term, spec):
@@ -177,7 +177,7 @@ def term_ok(dec_term, spec):
             return denotes(v, "name", nk, nrank)
         if isinstance(v, Cat):
             return denotes(v.a, "prefix", pk, prank) & denotes(v.b, "name", nk, nrank)
-        return isinstance(v, str) and v == pk + nk
+        return isinstance(v, str) and str(v) == pk + nk
     if k == "bnode":
         return dec_term == ("bnode", spec[1])
     if k == "lit":
@@ -194,9 +194,35 @@ def term_ok(dec_term, spec):
     return False
 
 
+class _RdfTerms:
+    """rdflib counterparts of the generic term constructors used by make_term"""
+
+    @staticmethod
+    def IRI(v):
+        import rdflib
+        return rdflib.URIRef(v)
+
+    @staticmethod
+    def BlankNode(v):
+        import rdflib
+        return rdflib.BNode(v)
+
+    @staticmethod
+    def Literal(lex, lang, dt):
+        import rdflib
+        return rdflib.Literal(lex, lang=lang, datatype=rdflib.URIRef(dt) if dt else None)
+
+    @property
+    def DefaultGraph(self):
+        from rdflib.graph import DATASET_DEFAULT_GRAPH_ID
+        return DATASET_DEFAULT_GRAPH_ID
+
+
 def make_term(kind, ch, pos, tag):
-    """-> (generic API term, spec, choices consumed)"""
+    """-> (API term of the integration under test, spec, choices consumed)"""
     from pyjelly.integrations.generic import generic_sink as gs
+    if P.get("integ") == "rdflib":
+        gs = _RdfTerms()
     if kind == "iri":
         np_, mp, ep = shape("prefix")
         nn, mn, _ = shape("name")
@@ -264,7 +290,7 @@ def post_tab(kind, enc, dec, fresh_keys):
             if isinstance(s, K):
                 if rk:
                     alts.append((idx == p + 1) & (s.rank == rk))
-            elif s == k:
+            elif str(s) == str(k):   # plain-str comparison: rdflib's URIRef.__eq__ is type-strict
                 alts.append(idx == p + 1)
         c.append(any_(alts) if alts else False)
     c.append(dec.last_assigned_index == enc.last_assigned_index)
@@ -281,7 +307,10 @@ def stmt(pn: List[int], rn: List[int], lan: int, lrn: int, pp: List[int], rp: Li
     """
     kinds = P["kinds"]
     try:
-        from pyjelly.integrations.generic.serialize import GenericSinkTermEncoder
+        if P.get("integ") == "rdflib":
+            from pyjelly.integrations.rdflib.serialize import RDFLibTermEncoder as GenericSinkTermEncoder
+        else:
+            from pyjelly.integrations.generic.serialize import GenericSinkTermEncoder
         nn, np_, nd = shape("name")[0], shape("prefix")[0], shape("datatype")[0]
         en, dn = build_pair("name", pn, rn, lan, lrn)
         ep_, dp = build_pair("prefix", pp, rp, lap, lrp)
@@ -297,6 +326,13 @@ def stmt(pn: List[int], rn: List[int], lan: int, lrn: int, pp: List[int], rp: Li
             pos += u
         quad = len(kinds) == 4
         rep = [None] * 4
+        repcls = P.get("rep") or [0] * len(kinds)   # 0 no previous, 1 previous == coming term, 2 previous differs
+        other = make_term("bnode", ch, 0, 99)[0]
+        for i in range(len(kinds)):
+            if repcls[i] == 1:
+                rep[i] = terms[i]
+            elif repcls[i] == 2:
+                rep[i] = other
         rows = (encode_quad if quad else encode_triple)(terms, te, rep)
         # ---- reader
         opts = ParserOptions(stream_types=StreamTypes(physical_type=2 if quad else 1, logical_type=0),
@@ -304,6 +340,10 @@ def stmt(pn: List[int], rn: List[int], lan: int, lrn: int, pp: List[int], rp: Li
                              params=StreamParameters())
         d = Decoder(adapter=HAdapter(opts))
         d.names, d.prefixes, d.datatypes = dn, dp, dd
+        oneofs = ("subject", "predicate", "object", "graph")
+        for i in range(len(kinds)):
+            if repcls[i]:
+                d.repeated_terms[oneofs[i]] = ("PREV", i)   # what the reader remembered for that slot
         out = None
         nrows = 0
         for row in rows:
@@ -314,8 +354,15 @@ def stmt(pn: List[int], rn: List[int], lan: int, lrn: int, pp: List[int], rp: Li
                 out = res
         c = [out is not None and len(out) == len(kinds) + 1]
         if out is not None:
+            stm_row = [getattr(r, r.WhichOneof("row")) for r in rows if r.WhichOneof("row") in ("triple", "quad")][0]
             for i in range(len(kinds)):
-                c.append(term_ok(out[1 + i], specs[i]))
+                if repcls[i] == 1:
+                    # equal to the previous statement's term: elided on the wire, taken from the reader's memory
+                    c.append(stm_row.WhichOneof(oneofs[i]) is None)
+                    c.append(out[1 + i] == ("PREV", i))
+                else:
+                    c.append(stm_row.WhichOneof(oneofs[i]) is not None)
+                    c.append(term_ok(out[1 + i], specs[i]))
         # every id on the wire within the declared sizes
         for row in rows:
             w = row.WhichOneof("row")
